@@ -507,10 +507,10 @@ func makeTopDict(info *type1.FontInfo) cffDict {
 		topDict[opItalicAngle] = []interface{}{info.ItalicAngle}
 	}
 	if info.UnderlinePosition != defaultUnderlinePosition {
-		topDict[opUnderlinePosition] = []interface{}{int32(info.UnderlinePosition)}
+		topDict[opUnderlinePosition] = []interface{}{dictNumber(float64(info.UnderlinePosition))}
 	}
 	if info.UnderlineThickness != defaultUnderlineThickness {
-		topDict[opUnderlineThickness] = []interface{}{int32(info.UnderlineThickness)}
+		topDict[opUnderlineThickness] = []interface{}{dictNumber(float64(info.UnderlineThickness))}
 	}
 	// if info.IsOutlined {
 	// 	topDict[opPaintType] = []interface{}{int32(2)} // per font
